@@ -74,7 +74,7 @@ def jobs(pid, tier):
                     vrt('C02', [r'wake1_.*_(val|exc|async)', r'wake2_(coro-poll|wait-cb|hasv-sync|coro-coro|cb-cb)_(val|exc|drop|async)'], bound=2, workers=2, **R),
                     vrt('C07', [r'mx2_.*_(dis-dis|dtor-awt|awt-move|move-move)_r1', r'mx3_f[012]_r[03]', r'mxpool_.*', r'mxown_.*'], bound=2, workers=4, **R),
                     vrt('C09', [r'q_p1_c2_.*', r'q_p2_c1_(block|coro)', r'lq_l1_p2_.*', r'lq_l1_unblock_.*'], bound=2, workers=4, **R),
-                    vrt('C11', [r'pool_w[12]_(coawait|runfn|runfnbig|detached|detachedbig)_(stop|selfstop)', r'pool_w2_(coawait-runfn|runfnbig-detached)_stop',
+                    vrt('C11', [r'pool_w[12]_(coawait|runfn|runfnbig|detached|detachedbig|current)_(stop|selfstop)', r'pool_w2_(coawait-runfn|runfnbig-detached)_stop',
                                  r'pool_w[12]_(coawait|runfn|detached)_racestop'], bound=2, workers=2, **R),
                     vrt('C12', [r'sch_(thread|pool)_(5-10|10-5)(_cancel0)?'], bound=2, workers=4, **R),
                     vrt('C16', [r'pub1_.*', r'pub2_all_(coro-block|coro-poll)_pub-batch2-close', r'pubmt1_.*', r'pubmt2_coro-coro'], bound=2, workers=4, **R),
@@ -89,7 +89,7 @@ def jobs(pid, tier):
                 vrt('C02', [r'wake3_.*'], bound=2, workers=16, **R),
                 vrt('C07', [r'mx[23]_.*'], bound=3, workers=8, **R),
                 vrt('C09', [r'q_p1_.*', r'q_p2_c1_.*', r'lq_.*'], bound=3, workers=8, **R),
-                vrt('C11', [r'pool_w[12]_(coawait|runfn|runfnbig|detached|detachedbig)(-(coawait|runfn|runfnbig|detached|detachedbig))?_(stop|dtor|selfstop|racestop)'], bound=2, workers=8, **R),
+                vrt('C11', [r'pool_w[12]_(coawait|runfn|runfnbig|detached|detachedbig|current)(-(coawait|runfn|runfnbig|detached|detachedbig|current))?_(stop|dtor|selfstop|racestop)'], bound=2, workers=8, **R),
                 vrt('C12', [r'sch_.*'], bound=2, workers=8, **R),
                 vrt('C16', [r'pub1_.*', r'pub2_(?!.*poll-poll).*', r'pubmt.*'], bound=2, workers=8, **R),
                 vrt('C17', [r'sf.*'], bound=2, workers=8, **R),
@@ -105,7 +105,7 @@ def jobs(pid, tier):
         return [vrt('C17', [r'sf1_.*', r'sf_copy_before_init', r'sf_init_copy_getpromise'], unbounded=True, workers=2),
                 vrt('C17', [r'sf2_.*'], bound=3, workers=4)]
     if pid == 'C11':
-        OKK = r'(coawait|runfn|runfnbig|detached|detachedbig)'
+        OKK = r'(coawait|runfn|runfnbig|detached|detachedbig|current)'
         LOST = r'(coawaitfut|runasync|resumesp)'
         if q:
             return [vrt('C11', [rf'pool_w[12]_{OKK}_(stop|dtor|selfstop|racestop)', r'pool_w2_dependent_.*', r'pool_w[12]_live_.*', r'pool_w[12]_selfdestroy.*'], bound=2, workers=2),
